@@ -509,3 +509,16 @@ ASSUMPTIONS = [
 TRUSTED = ['stubs/vx_bitcast.h (R10; ramBitCast itself is cross-checked natively)', 'stubs/algorithm (std::min/max)', 'stubs/cmath (pow uninterpreted)',
            'units/functors/optable.py (the specification)', 'g++ -E for macro expansion of the interpreter switch',
            'native execution of the extracted synthesiser emitter to obtain the emitted expressions', 'rewrite rules R2,R5,R8,R9,R10,R15,R16']
+
+MUTANTS = [
+    dict(name='interp shift mask dropped', file=ENGINE, find=r'return ramBitCast\(EVAL_CHILD\(ty, 0\) op \(EVAL_CHILD\(ty, 1\) & RAM_BIT_SHIFT_MASK\)\)', repl='return ramBitCast(EVAL_CHILD(ty, 0) op (EVAL_CHILD(ty, 1)))', expect=r'functors\.interp\.U?BSHIFT'),
+    dict(name='synth shift mask dropped', file=SYNTH, find=r'#define BINARY_OP_EXPR_SHIFT\(ty, op\) BINARY_OP_EXPR_EX\(ty, op, " & RAM_BIT_SHIFT_MASK"\)', repl='#define BINARY_OP_EXPR_SHIFT(ty, op) BINARY_OP_EXPR_EX(ty, op, "")', expect=r'functors\.synth\.U?BSHIFT'),
+    dict(name='interp BSHIFT_R logical instead of arithmetic', file=ENGINE, find=r'BINARY_OP_INTEGRAL_SHIFT\(BSHIFT_R         , >>, RamSigned  , RamUnsigned\)', repl='BINARY_OP_INTEGRAL_SHIFT(BSHIFT_R         , >>, RamUnsigned, RamUnsigned)', expect=r'functors\.interp\.BSHIFT_R '),
+    dict(name='interp std::min <-> std::max', file=ENGINE, find=r'MINMAX_NUMERIC\(MAX, std::max\)\s*MINMAX_NUMERIC\(MIN, std::min\)', repl='MINMAX_NUMERIC(MAX, std::min)\n                MINMAX_NUMERIC(MIN, std::max)', expect=r'functors\.interp\.U?F?M(AX|IN)'),
+    dict(name='synth UDIV emitted signed', file=SYNTH, find=r'#define BINARY_OP_INTEGRAL\(opcode, op\)\s*\\\s*case FunctorOp::   opcode: BINARY_OP_EXPR\(RamSigned  , op\) \\\s*case FunctorOp::U##opcode: BINARY_OP_EXPR\(RamUnsigned, op\)', repl='#define BINARY_OP_INTEGRAL(opcode, op)                         \\\n    case FunctorOp::   opcode: BINARY_OP_EXPR(RamSigned  , op) \\\n    case FunctorOp::U##opcode: BINARY_OP_EXPR(RamSigned, op)', expect=r'functors\.synth\.U(DIV|MOD)'),
+    dict(name='interp ULT compares signed', file=ENGINE, find=r'case BinaryConstraintOp::U##opCode: COMPARE_NUMERIC\(RamUnsigned, op\); \\', repl='case BinaryConstraintOp::U##opCode: COMPARE_NUMERIC(RamSigned, op); \\\\', expect=r'functors\.interpc\.U(LT|LE|GT|GE)'),
+    dict(name='interp LXOR as bitwise xor', file=ENGINE, find=r'BINARY_OP_LOGICAL\(LXOR, \+ souffle::evaluator::lxor_infix\(\) \+\)', repl='BINARY_OP_LOGICAL(LXOR, ^)', expect=r'functors\.interp\.U?LXOR'),
+    dict(name='interp F2U via signed', file=ENGINE, find=r'UNARY_OP\(F2U, RamFloat   , static_cast<RamUnsigned>\)', repl='UNARY_OP(F2U, RamFloat   , static_cast<RamSigned>)', expect=r'functors\.interp\.F2U'),
+    dict(name='lxor: both non-zero gives true', file=EVU, find=r'return \(x \|\| y\) && \(!x != !y\);', repl='return (x || y);', expect=r'functors\.(interp|synth)\.U?LXOR'),
+    dict(name='synth FEQ emitted as integer compare', file=SYNTH, find=r'case BinaryConstraintOp::F##opCode: COMPARE_NUMERIC\(RamFloat   , op\);\n#define COMPARE\(', repl='case BinaryConstraintOp::F##opCode: COMPARE_NUMERIC(RamDomain   , op);\n#define COMPARE(', expect=r'functors\.synthc\.F(EQ|NE)'),
+]
